@@ -310,7 +310,9 @@ pub fn wide_count_spec() -> BoxedStrategy<FileSpec> {
         prop::sample::select(vec![65_535u32, 65_536, 65_537, 70_001]),
         any::<u32>(),
         prop_oneof![Just(Some(usize::MAX)), Just(None), Just(Some(1024usize))],
-        prop_oneof![Just(Some(1usize)), Just(None), Just(Some(usize::MAX))],
+        // no huge interval here: stepping backwards inside a block is linear in the interval, a backward scan of one
+        // 65 536-entry block without offset slots would take 2^31 steps
+        prop_oneof![Just(Some(1usize)), Just(None), Just(Some(64usize))],
         prop_oneof![3 => Just(Codec::None), 1 => Just(Codec::Snappy), 1 => Just(Codec::Lz4)],
         0u8..=2,
     )
